@@ -468,6 +468,8 @@ def observe_B(case, tmp):
 
 
 def close(a, b):
+    if math.isinf(a) or math.isinf(b):
+        return a == b
     return abs(a - b) <= 1e-7 * max(1.0, abs(a), abs(b))
 
 
